@@ -219,7 +219,7 @@ func (f *readFile) transmittable(rawLine *bytes.Buffer, length, capacity int,
 	re regex.Regex) (*line.Line, bool) {
 
 	newLine := line.Null()
-	if !re.Match(rawLine.Bytes()) {
+	if !re.Match(withoutNewline(rawLine)) {
 		f.updateLineNotMatched()
 		f.updateLineNotTransmitted()
 		return newLine, false
@@ -234,6 +234,12 @@ func (f *readFile) transmittable(rawLine *bytes.Buffer, length, capacity int,
 	f.updateLineTransmitted()
 
 	return line.New(rawLine, f.totalLineCount(), f.transmittedPerc(), f.globID), true
+}
+
+// The regex is matched against the content of the line, not against its
+// terminating newline (otherwise "foo$" would never match and "[^a]" always).
+func withoutNewline(rawLine *bytes.Buffer) []byte {
+	return bytes.TrimSuffix(rawLine.Bytes(), []byte{'\n'})
 }
 
 // Check wether log file is truncated. Returns nil if not.
